@@ -66,7 +66,12 @@ def scenarios_for(prop, tier, rng):
         cases, r = tlc_cases("c15", 0, f"{prop}-gen"); gens.append(r)
         if not thorough:
             rng.shuffle(cases); cases = cases[:60]
-        return agentgen.c15_scenarios(cases, prop, rng), gens, {"c15_cases": len(cases)}
+        sc = agentgen.c15_scenarios(cases, prop, rng)
+        counts = {"c15_cases": len(cases)}
+        if prop == "C17":
+            tr = agentgen.transient_scenarios(prop)
+            sc += tr; counts["identical_expressions_with_a_transient_error"] = len(tr)
+        return sc, gens, counts
     if prop == "C14":
         cases, r = tlc_cases("garble", 1 if thorough else 0, f"{prop}-gen-garble"); gens.append(r)
         return agentgen.garble_scenarios(cases, prop), gens, {"damaged_reply_cases": len(cases)}
